@@ -68,12 +68,12 @@ fn clamp(v: &mut Value) {
     match v {
         Value::Number(n) => {
             if let Some(u) = n.as_u64() {
-                if u > 2_000_000_000 {
-                    *v = json!(2_000_000_000u64);
+                if u > 500_000_000 {
+                    *v = json!(500_000_000u64);
                 }
             } else if let Some(i) = n.as_i64() {
-                if i < -2_000_000_000 {
-                    *v = json!(-2_000_000_000i64);
+                if i < -500_000_000 {
+                    *v = json!(-500_000_000i64);
                 }
             }
         }
